@@ -17,9 +17,16 @@ class MessageHead(packet.Packet):
         ''' remove padding from payload list after disect() completes '''
         formats.remove_padding(self)
 
-        if not self.payload:
-            raise formats.VerifyError('Message without payload')
-        if isinstance(self.payload, packet.Raw):
+        cls = self.guess_payload_class(b'')
+        if not issubclass(cls, formats.NoPayloadPacket):
+            # An unknown message type (of unknown size) to be rejected by the session
+            if isinstance(self.payload, packet.Raw):
+                self.remove_payload()
+        elif isinstance(self.payload, packet.NoPayload):
+            # Scapy does not construct a payload from empty data
+            if cls.fields_desc:
+                raise formats.VerifyError('Message without payload')
+        elif isinstance(self.payload, packet.Raw):
             raise formats.VerifyError('Message with improper payload')
 
         packet.Packet.post_dissection(self, pkt)
